@@ -90,12 +90,12 @@ func (s *refStore) DeleteRange(min, max uint64) error {
 }
 
 type c19op struct {
-	Kind  string // store | delete | get
-	Idx   []uint64
-	Var   []byte // per-entry variant (term/data differ)
-	Min   uint64
-	Max   uint64
-	Fail  bool
+	Kind string // store | delete | get
+	Idx  []uint64
+	Var  []byte // per-entry variant (term/data differ)
+	Min  uint64
+	Max  uint64
+	Fail bool
 }
 
 func (o c19op) String() string {
